@@ -1,5 +1,7 @@
 import PonyVerif.Drive.Util
 import PonyVerif.Model.TxnProtocol
+import PonyVerif.Model.TxnEmit
+import PonyVerif.Gen.TxnEntry
 /-
   line-protocol entry for the C17 model.
   request  {"op":"run", "phase":"idle"|"auto", "pre":[[k,v],..],
@@ -9,7 +11,7 @@ import PonyVerif.Model.TxnProtocol
             "own":[own view after each event], "txns":[[[..]]], "boundaries":[store,..]}
 -/
 namespace PonyVerif.Drive.C17
-open Lean PonyVerif.Drive PonyVerif.Model.TxnProtocol
+open Lean PonyVerif.Drive PonyVerif.Model.TxnProtocol PonyVerif.Model.TxnEmit
 
 def jNat (n : Nat) : Json := .num (JsonNumber.fromNat n)
 def jInt (n : Int) : Json := .num (JsonNumber.fromInt n)
@@ -56,6 +58,41 @@ def parsePhase (s : String) : Except String Phase :=
   | "idle" => pure .idle | "auto" => pure .auto | "txn" => pure .txn
   | _ => throw s!"bad phase {s}"
 
+/-
+  request  {"op":"emit", "si":b, "pool":b, "bodyRaises":b, "faults":[call indices that raise],
+            "prog":[[["query"] | ["lockQuery"] | ["direct",entry] | ["flush",[entry..]] | ["commit",[entry..]] | ["rollback"], caught]..]}
+  reply    {"events":[[kind, ok]..], "table":{entry: opens..}, "flushSetsImmediate":b}     (entry-point table = Gen/TxnEntry.lean)
+-/
+def parseEntry (s : String) : Except String Entry :=
+  match s with
+  | "dbExecute" => pure .dbExecute | "dbInsert" => pure .dbInsert | "saveCreated" => pure .saveCreated
+  | "saveUpdated" => pure .saveUpdated | "saveDeleted" => pure .saveDeleted | "m2mRemove" => pure .m2mRemove
+  | "m2mAdd" => pure .m2mAdd | "bulkDelete" => pure .bulkDelete
+  | _ => throw s!"bad entry {s}"
+
+def parseEntries (j : Json) : Except String (List (Entry × List RowWrite)) := do
+  match j with
+  | .arr a => a.toList.mapM (fun x => do pure ((← parseEntry (← fromJson? x)), []))
+  | _ => throw "entry list expected"
+
+def parseOp (j : Json) : Except String (Op × Bool) := do
+  match j with
+  | .arr #[.arr #[.str "query"], .bool c] => pure (.query, c)
+  | .arr #[.arr #[.str "lockQuery"], .bool c] => pure (.lockQuery, c)
+  | .arr #[.arr #[.str "direct", .str e], .bool c] => pure (.direct (← parseEntry e) [], c)
+  | .arr #[.arr #[.str "flush", es], .bool c] => pure (.flush (← parseEntries es), c)
+  | .arr #[.arr #[.str "commit", es], .bool c] => pure (.commit (← parseEntries es), c)
+  | .arr #[.arr #[.str "rollback"], .bool c] => pure (.rollback, c)
+  | _ => throw s!"bad op {j.compress}"
+
+def stmtName : Stmt → String
+  | .connect => "connect" | .read => "read" | .begin => "begin" | .write _ => "write" | .commit => "commit"
+  | .rollback => "rollback" | .close => "close"
+
+def allEntries : List (String × Entry) :=
+  [("dbExecute", .dbExecute), ("dbInsert", .dbInsert), ("saveCreated", .saveCreated), ("saveUpdated", .saveUpdated),
+   ("saveDeleted", .saveDeleted), ("m2mRemove", .m2mRemove), ("m2mAdd", .m2mAdd), ("bulkDelete", .bulkDelete)]
+
 def handle (j : Json) : Except String Json := do
   let op ← argStr j "op"
   match op with
@@ -74,5 +111,19 @@ def handle (j : Json) : Except String Json := do
         ("own", .arr (dbs.map (fun d => storeJson (ownView d))).toArray),
         ("txns", .arr (tx.map (fun t => Json.arr (t.map (fun ws => Json.arr (ws.map rowWriteJson).toArray)).toArray)).toArray),
         ("boundaries", .arr ((boundaries pre tx).map storeJson).toArray)])
+  | "emit" =>
+      let si ← argBool j "si"
+      let pool ← argBool j "pool"
+      let br ← argBool j "bodyRaises"
+      let faults ← (← argArr j "faults").mapM (fun x => (fromJson? x : Except String Nat))
+      let prog ← (← argArr j "prog").mapM parseOp
+      let r := session PonyVerif.Gen.TxnEntry.opens PonyVerif.Gen.TxnEntry.flushSetsImmediate si (A.start pool si) prog br
+                 (fun i => faults.contains i)
+      pure (Json.mkObj [
+        ("events", .arr (r.evs.map (fun e => Json.arr #[.str (stmtName e.stmt), .bool e.ok])).toArray),
+        ("ok", .bool r.ok),
+        ("accepted", .bool (accepts (phaseOf (A.start pool si)) r.evs)),
+        ("table", Json.mkObj (allEntries.map (fun (n, e) => (n, Json.bool (PonyVerif.Gen.TxnEntry.opens e))))),
+        ("flushSetsImmediate", .bool PonyVerif.Gen.TxnEntry.flushSetsImmediate)])
   | _ => throw s!"unknown op {op}"
 end PonyVerif.Drive.C17
